@@ -221,7 +221,12 @@ def s_unit(cb, head='A', tag=None, props=None):
     fn = DEEP[cb]
     tname = 'S___%s' % fn + ('__Ev' if ev else '')
     contracts = {tname: s_contract(cb, ST)}
-    contracts['%s__%s' % (head, cb)] = stub_contract(cb, ST)
+    contracts['%s__%s' % (head, cb)] = dict(stub_contract(cb, ST), optional=True)     # optional: if it is never called the target's own postcondition fails
+    # the state's other callbacks are user code too: modelled (optional: normally not called from this function), so that a
+    # deep* function calling the wrong callback fails its own postcondition instead of leaving the unit without a contract
+    for cb2 in CB:
+        if cb2 != cb and (head == 'R' or cb2 not in ('planSucceeded', 'planFailed')):
+            contracts['%s__%s' % (head, cb2)] = dict(stub_contract(cb2, ST), optional=True)
     contracts.update(logger_contracts())
     if cb == 'exit':
         contracts.update(CLEAR_STATUS)
@@ -235,6 +240,8 @@ def s_unit(cb, head='A', tag=None, props=None):
     return u
 
 UNITS = [s_unit(cb) for cb in ('entryGuard', 'enter', 'reenter', 'preUpdate', 'update', 'postUpdate', 'preReact', 'react', 'postReact', 'query', 'exitGuard', 'exit')]
+# the root head with a user type (S_<INVALID, Args, R>): the two functions only a head has -- what plans.updatePlan.* assume of them
+UNITS += [s_unit(cb, head='R', props=['C09', 'C16', 'C06', 'C18']) for cb in ('planSucceeded', 'planFailed')]
 
 # =============================================================================================
 # C15: a state with three injections (Head = C : StateT<Inj1, Inj2, Inj3>): LIFO nesting
@@ -270,9 +277,12 @@ def s_unit_inj(cb):
     else:
         order = ' && '.join('%s > __CPROVER_old(g_clock)' % t for t in tis)     # exitGuard / query: each injection exactly once, order not constrained by C15
     sc['ensures'] = sc['ensures'] + [('C15', order), ('C15', ' && '.join('g_sti[%d][%d] == %s' % (kid, d, ST) for d in range(3)))]
-    contracts = {tname: sc, 'C__%s' % cb: stub_contract(cb, ST)}
+    contracts = {tname: sc, 'C__%s' % cb: dict(stub_contract(cb, ST), optional=True)}
     for d in range(3):
-        contracts['Inj%d__%s' % (d + 1, cb)] = inj_stub(cb, d, ST)
+        contracts['Inj%d__%s' % (d + 1, cb)] = dict(inj_stub(cb, d, ST), optional=True)
+    for cb2 in CB:
+        if cb2 != cb and cb2 not in ('planSucceeded', 'planFailed'):
+            contracts['C__%s' % cb2] = dict(stub_contract(cb2, ST), optional=True)
     contracts.update(logger_contracts())
     if cb == 'exit':
         contracts.update(CLEAR_STATUS)
